@@ -313,7 +313,32 @@ def op_collide(rng, pool, docs):
     return lines
 
 
-EXTRA = dict(collide=(8, op_collide), block=(8, op_block), settimes=(3, op_settimes), copy=(3, op_copy), deepcopy=(2, op_deepcopy),
+def op_fanin(rng, pool, docs):
+    """Several elements reference one target through the same reference kind; the target is then removed
+    (C04: every referrer has to let go, not just the first one the removal loop meets)."""
+    rk = rng.choice(list(RK))
+    src, dst, multi = RK[rk]
+    if not pool.by_kind[dst] or len(pool.by_kind[src]) < 2:
+        return None
+    b = rng.choice(pool.by_kind[dst])
+    srcs = [a for a in pool.by_kind[src] if a != b]
+    if len(srcs) < 2:
+        return None
+    k = rng.choice([2, 2, 3, 4])
+    picks = rng.sample(srcs, min(k, len(srcs)))
+    d = rng.choice(docs)
+    lines = []
+    for a in picks:
+        lines.append('%s %s %s %s' % ('addref' if multi else 'setref', rk, a, b))
+    lines.append('add %s %s' % (d, b))
+    for a in picks:
+        if rng.random() < 0.7:
+            lines.append('add %s %s' % (d, a))
+    lines.append('remove %s %s' % (d, b))
+    return lines
+
+
+EXTRA = dict(fanin=(6, op_fanin), collide=(8, op_collide), block=(8, op_block), settimes=(3, op_settimes), copy=(3, op_copy), deepcopy=(2, op_deepcopy),
              deepcopyto=(2, op_deepcopyto), reassign=(3, op_reassign), trace=(3, op_trace), fixdur=(3, op_fixdur),
              simple=(3, op_simple))
 
